@@ -7,6 +7,7 @@ CONSTANTS
   NReq = 8
   Reuse = %s
   KF_NoRespawn = FALSE
+  Http = %s
   MaxClients = 99
   MaxRequeue = 99
 INVARIANT Watch
@@ -17,8 +18,9 @@ CHECK_DEADLOCK FALSE
 
 def project(tr):
     cfg = tr.get('cfg') or {}
-    if cfg.get('kind') != 'smtp' or not any(e['t'] == 'pool' for e in tr['ev']):
+    if cfg.get('kind') not in ('smtp', 'http') or not any(e['t'] == 'pool' for e in tr['ev']):
         return None
+    http = cfg['kind'] == 'http'
     out = []
     for e in tr['ev']:
         t = e['t']
@@ -28,24 +30,28 @@ def project(tr):
             out.append({'t': 'call', 'req': e['req']})
         elif t == 'conn':
             out.append({'t': 'conn', 'what': e['what'], 'conn': e['conn']})
+        elif t == 'peer' and http:
+            # (the peer numbers connections as it accepts them, the relay as it creates them: only "some client holds m" is bound)
+            if e.get('m'):
+                out.append({'t': 'holds', 'm': int(e['m'])})
         elif t == 'peer':
             out.append({'t': 'peer', 'stage': e['stage'], 'conn': e.get('conn', 0), 'm': int(e.get('m', 0) or 0)})
         elif t == 'ret':
             out.append({'t': 'ret', 'req': e['req']})
         elif t == 'pool':
-            out.append({'t': 'pool', 'n': e['n'], 'q': e['q']})
+            out.append({'t': 'pool', 'n': e['n'], 'q': e['q'], 'oc': e.get('oc', -1)})
         elif t == 'end':
             out.append({'t': 'end'})
             break              # what follows is the driver tearing the pool down
     nrq = sum(1 for e in tr['ev'] if e['t'] == 'peer' and e['stage'] in ('idle', 'stray'))
     # (no more clients than attempt() calls made plus clients that ended and were replaced: a bound for the search, not a claim)
     nconn = sum(1 for e in out if e['t'] == 'conn' and e['what'] == 'open') + sum(1 for e in out if e['t'] == 'call')
-    return {'id': tr['id'], 'ev': out, 'nrq': nrq, 'nconn': nconn, 'key': (int(cfg.get('pool_size') or 0), bool(cfg.get('idle')))}
+    return {'id': tr['id'], 'ev': out, 'nrq': nrq, 'nconn': nconn, 'key': (int(cfg.get('pool_size') or 0), bool(cfg.get('idle')), http)}
 
 
 def validate(projected, tag='poold'):
     groups = {}
     for p in projected:
-        g = groups.setdefault(p['key'], (CFG % (p['key'][0], 'TRUE' if p['key'][1] else 'FALSE'), []))
+        g = groups.setdefault(p['key'], (CFG % (p['key'][0], 'TRUE' if p['key'][1] else 'FALSE', 'TRUE' if p['key'][2] else 'FALSE'), []))
         g[1].append({'id': p['id'], 'ev': p['ev'], 'nrq': p['nrq'], 'nconn': p['nconn']})
     return dtrace.validate('Trace_PoolD', groups, tag, per_shard=30)
